@@ -2,16 +2,30 @@ package nfa
 
 import (
 	"regexp/syntax"
+	"unicode"
+	"unicode/utf8"
 )
 
 // BranchDispatcher provides O(1) branch selection for anchored alternations.
 // For patterns like ^(\d+|UUID|hex32), it dispatches directly to the matching
 // branch based on the first byte, avoiding the need to try all branches.
 //
-// This is only applicable when:
-//   - Pattern is start-anchored (^)
-//   - Top-level is an alternation (a|b|c)
-//   - Each branch has distinct first bytes (no overlap)
+// A dispatcher is only ever built when it is exact, i.e. when Search/IsMatch
+// return precisely what a regex engine returns for \A(?:alternation):
+//   - every branch is a deterministic byte sequence: fixed single-byte steps
+//     (case-sensitive literals encoded as UTF-8, ASCII-only character classes)
+//     optionally followed by one greedy repetition of a single-byte set that
+//     ends the branch (\d+, [a-c]*, x{2,5}, ...)
+//   - no branch can match the empty string
+//   - the first-byte sets of the branches are pairwise disjoint
+//
+// Under these conditions at most one branch can match at offset 0 and that
+// branch has exactly one way to match, so the result does not depend on
+// branch order, on greedy/lazy preference or on leftmost-first vs
+// leftmost-longest semantics. Anything else (case folding, lazy quantifiers,
+// non-ASCII classes, look-around assertions, nested alternations, branches
+// that can be empty, ...) is rejected by NewBranchDispatcher and must be
+// handled by a general engine.
 //
 // Performance: O(1) branch selection vs O(branches) for naive approach.
 // For 3-branch pattern: ~3x faster on match, ~10x faster on no-match.
@@ -19,42 +33,245 @@ type BranchDispatcher struct {
 	// dispatch maps first byte to branch index (-1 = no match)
 	dispatch [256]int8
 
-	// branches holds the compiled sub-patterns for each branch
+	// branches holds the sub-patterns for each branch
 	branches []*syntax.Regexp
 
-	// branchMatchers holds specialized matchers for each branch (if available)
+	// branchMatchers holds the exact matcher of each branch
 	branchMatchers []branchMatcher
-
-	// canMatchEmpty is true if any branch can match empty string
-	canMatchEmpty bool
 }
 
-// branchMatcher is a simple matcher for a single alternation branch.
+// byteSet is a 256-bit set of bytes.
+type byteSet [4]uint64
+
+func (s *byteSet) add(b byte)      { s[b>>6] |= 1 << (b & 63) }
+func (s *byteSet) has(b byte) bool { return s[b>>6]&(1<<(b&63)) != 0 }
+func (s *byteSet) intersects(o *byteSet) bool {
+	return s[0]&o[0] != 0 || s[1]&o[1] != 0 || s[2]&o[2] != 0 || s[3]&o[3] != 0
+}
+
+// maxBranchSteps bounds the number of fixed steps of one branch (x{1000} expands to 1000 steps).
+const maxBranchSteps = 4096
+
+// branchMatcher matches one alternation branch at offset 0:
+//
+//	steps[0] steps[1] ... steps[n-1] tail{tailMin,tailMax}
+//
+// Every step consumes exactly one byte from its set. The optional tail is a
+// greedy repetition of a single-byte set and is always the last element of
+// the branch, so taking the longest run (bounded by tailMax) is exact.
 type branchMatcher struct {
-	// For literal branches like "UUID"
-	literal []byte
+	steps []byteSet
 
-	// For char class+ branches like \d+
-	charClass    [256]bool
-	minMatch     int
-	hasCharClass bool
+	hasTail bool
+	tail    byteSet
+	tailMin int
+	tailMax int // -1 = unbounded
 }
 
-// NewBranchDispatcher creates a dispatcher for an anchored alternation.
-// Returns nil if the pattern is not suitable for branch dispatch.
+// minLen returns the length of the shortest string the branch matches.
+func (m *branchMatcher) minLen() int {
+	if m.hasTail {
+		return len(m.steps) + m.tailMin
+	}
+	return len(m.steps)
+}
+
+// firstSet returns the set of bytes a match of the branch can start with.
+// Only meaningful when minLen() > 0.
+func (m *branchMatcher) firstSet() byteSet {
+	if len(m.steps) > 0 {
+		return m.steps[0]
+	}
+	return m.tail
+}
+
+// match returns the end of the unique match of the branch at offset 0.
+func (m *branchMatcher) match(haystack []byte) (int, bool) {
+	n := len(m.steps)
+	if len(haystack) < n {
+		return -1, false
+	}
+	for i := range m.steps {
+		if !m.steps[i].has(haystack[i]) {
+			return -1, false
+		}
+	}
+	if !m.hasTail {
+		return n, true
+	}
+	limit := len(haystack)
+	if m.tailMax >= 0 && n+m.tailMax < limit {
+		limit = n + m.tailMax
+	}
+	end := n
+	for end < limit && m.tail.has(haystack[end]) {
+		end++
+	}
+	if end-n < m.tailMin {
+		return -1, false
+	}
+	return end, true
+}
+
+// addStep appends a fixed single-byte step. Nothing may follow the tail.
+func (m *branchMatcher) addStep(s byteSet) bool {
+	if m.hasTail || len(m.steps) >= maxBranchSteps {
+		return false
+	}
+	m.steps = append(m.steps, s)
+	return true
+}
+
+// asciiClassSet converts a character class whose members are all ASCII into a byte set.
+// Classes with members above U+007F are multi-byte in UTF-8 (and interact with
+// invalid UTF-8) and are not supported.
+func asciiClassSet(re *syntax.Regexp) (byteSet, bool) {
+	var s byteSet
+	if len(re.Rune) == 0 || len(re.Rune)%2 != 0 {
+		return s, false
+	}
+	for i := 0; i < len(re.Rune); i += 2 {
+		lo, hi := re.Rune[i], re.Rune[i+1]
+		if lo < 0 || hi > 0x7F || lo > hi {
+			return s, false
+		}
+		for r := lo; r <= hi; r++ {
+			s.add(byte(r))
+		}
+	}
+	return s, true
+}
+
+// add appends the sub-pattern re to the branch. It returns false when re cannot be
+// matched exactly by the step/tail machine.
+func (m *branchMatcher) add(re *syntax.Regexp, depth int) bool {
+	if re == nil || depth > maxFirstBytesDepth {
+		return false
+	}
+
+	switch re.Op {
+	case syntax.OpEmptyMatch:
+		return true
+
+	case syntax.OpCapture:
+		// Group boundaries do not influence the overall match span.
+		if len(re.Sub) != 1 {
+			return false
+		}
+		return m.add(re.Sub[0], depth+1)
+
+	case syntax.OpConcat:
+		for _, sub := range re.Sub {
+			if !m.add(sub, depth+1) {
+				return false
+			}
+		}
+		return true
+
+	case syntax.OpLiteral:
+		fold := re.Flags&syntax.FoldCase != 0
+		var buf [utf8.UTFMax]byte
+		for _, r := range re.Rune {
+			// A case-insensitive rune with case variants needs a general engine
+			// (the variants may have a different UTF-8 length, e.g. k / U+212A).
+			if fold && unicode.SimpleFold(r) != r {
+				return false
+			}
+			// U+FFFD is also what an invalid byte decodes to.
+			if r == utf8.RuneError || !utf8.ValidRune(r) {
+				return false
+			}
+			n := utf8.EncodeRune(buf[:], r)
+			for _, b := range buf[:n] {
+				var s byteSet
+				s.add(b)
+				if !m.addStep(s) {
+					return false
+				}
+			}
+		}
+		return true
+
+	case syntax.OpCharClass:
+		s, ok := asciiClassSet(re)
+		if !ok {
+			return false
+		}
+		return m.addStep(s)
+
+	case syntax.OpPlus, syntax.OpStar, syntax.OpQuest, syntax.OpRepeat:
+		if len(re.Sub) != 1 {
+			return false
+		}
+		minCount, maxCount := 0, -1
+		switch re.Op {
+		case syntax.OpPlus:
+			minCount = 1
+		case syntax.OpQuest:
+			maxCount = 1
+		case syntax.OpRepeat:
+			minCount, maxCount = re.Min, re.Max
+		}
+		if minCount < 0 || (maxCount >= 0 && maxCount < minCount) {
+			return false
+		}
+		if maxCount == 0 {
+			return true // x{0} matches only the empty string
+		}
+		// The repeated element must be exactly one single-byte step.
+		var elem branchMatcher
+		if !elem.add(re.Sub[0], depth+1) || elem.hasTail || len(elem.steps) != 1 {
+			return false
+		}
+		if minCount == maxCount {
+			// Fixed count: no choice, greedy and lazy agree.
+			for i := 0; i < minCount; i++ {
+				if !m.addStep(elem.steps[0]) {
+					return false
+				}
+			}
+			return true
+		}
+		// Variable count: only a greedy repetition that ends the branch is deterministic.
+		if re.Flags&syntax.NonGreedy != 0 || m.hasTail {
+			return false
+		}
+		m.hasTail = true
+		m.tail = elem.steps[0]
+		m.tailMin = minCount
+		m.tailMax = maxCount
+		return true
+
+	default:
+		// Assertions, '.', nested alternations, ...: not supported.
+		return false
+	}
+}
+
+// buildBranchMatcher creates the exact matcher for a single branch.
+// ok is false if the branch has no exact matcher or can match the empty string.
+func buildBranchMatcher(re *syntax.Regexp) (m branchMatcher, ok bool) {
+	if !m.add(re, 0) || m.minLen() == 0 {
+		return branchMatcher{}, false
+	}
+	return m, true
+}
+
+// unwrapCaptures strips capture groups around re.
+func unwrapCaptures(re *syntax.Regexp) *syntax.Regexp {
+	for re != nil && re.Op == syntax.OpCapture && len(re.Sub) == 1 {
+		re = re.Sub[0]
+	}
+	return re
+}
+
+// NewBranchDispatcher creates a dispatcher for an alternation (optionally wrapped
+// in capture groups) that is to be matched anchored at offset 0.
+// Returns nil if the alternation is not suitable for exact branch dispatch
+// (see BranchDispatcher for the conditions).
 func NewBranchDispatcher(re *syntax.Regexp) *BranchDispatcher {
-	if re == nil {
-		return nil
-	}
-
-	// Handle capture group wrapper
-	inner := re
-	if re.Op == syntax.OpCapture && len(re.Sub) == 1 {
-		inner = re.Sub[0]
-	}
-
-	// Must be alternation
-	if inner.Op != syntax.OpAlternate {
+	inner := unwrapCaptures(re)
+	if inner == nil || inner.Op != syntax.OpAlternate {
 		return nil
 	}
 
@@ -63,182 +280,59 @@ func NewBranchDispatcher(re *syntax.Regexp) *BranchDispatcher {
 		return nil
 	}
 
-	// Extract first bytes for each branch and check for overlap
 	var dispatch [256]int8
 	for i := range dispatch {
 		dispatch[i] = -1 // Default: no branch matches this byte
 	}
 
 	branchMatchers := make([]branchMatcher, len(branches))
-	canMatchEmpty := false
+	var seen byteSet
 
 	for i, branch := range branches {
-		fb := ExtractFirstBytes(branch)
-		if fb == nil || !fb.IsComplete() {
-			return nil // Can't determine first bytes for this branch
+		m, ok := buildBranchMatcher(branch)
+		if !ok {
+			return nil // No exact matcher for this branch (or it can match empty)
 		}
 
-		if fb.Count() == 0 {
-			// Branch can match empty (like ^ or empty alternative)
-			canMatchEmpty = true
-			continue
+		first := m.firstSet()
+		if first.intersects(&seen) {
+			return nil // Overlap - branches not mutually exclusive
 		}
-
-		// Check for overlap with previous branches
 		for b := 0; b < 256; b++ {
-			if fb.bytes[b] {
-				if dispatch[b] != -1 {
-					// Overlap detected - branches not mutually exclusive
-					return nil
-				}
+			if first.has(byte(b)) {
+				seen.add(byte(b))
 				dispatch[b] = int8(i)
 			}
 		}
-
-		// Build specialized matcher for this branch
-		branchMatchers[i] = buildBranchMatcher(branch)
+		branchMatchers[i] = m
 	}
 
 	return &BranchDispatcher{
 		dispatch:       dispatch,
 		branches:       branches,
 		branchMatchers: branchMatchers,
-		canMatchEmpty:  canMatchEmpty,
 	}
 }
 
-// buildBranchMatcher creates an optimized matcher for a single branch.
-//
-//nolint:gocognit // Pattern matching naturally has high branching factor
-func buildBranchMatcher(re *syntax.Regexp) branchMatcher {
-	var m branchMatcher
-
-	// Unwrap capture if present
-	if re.Op == syntax.OpCapture && len(re.Sub) == 1 {
-		re = re.Sub[0]
-	}
-
-	switch re.Op {
-	case syntax.OpLiteral:
-		// Literal like "UUID"
-		m.literal = make([]byte, len(re.Rune))
-		for i, r := range re.Rune {
-			if r > 255 {
-				return m // Non-ASCII, can't optimize
-			}
-			m.literal[i] = byte(r)
-		}
-
-	case syntax.OpPlus:
-		// char_class+ like \d+
-		if len(re.Sub) == 1 && re.Sub[0].Op == syntax.OpCharClass {
-			cc := re.Sub[0]
-			for i := 0; i < len(cc.Rune); i += 2 {
-				lo, hi := cc.Rune[i], cc.Rune[i+1]
-				if hi > 255 {
-					hi = 255
-				}
-				if lo > 255 {
-					continue
-				}
-				for r := lo; r <= hi; r++ {
-					m.charClass[byte(r)] = true
-				}
-			}
-			m.hasCharClass = true
-			m.minMatch = 1
-		}
-
-	case syntax.OpStar:
-		// char_class* like \d*
-		if len(re.Sub) == 1 && re.Sub[0].Op == syntax.OpCharClass {
-			cc := re.Sub[0]
-			for i := 0; i < len(cc.Rune); i += 2 {
-				lo, hi := cc.Rune[i], cc.Rune[i+1]
-				if hi > 255 {
-					hi = 255
-				}
-				if lo > 255 {
-					continue
-				}
-				for r := lo; r <= hi; r++ {
-					m.charClass[byte(r)] = true
-				}
-			}
-			m.hasCharClass = true
-			m.minMatch = 0
-		}
-
-	case syntax.OpConcat:
-		// Concatenation - check if starts with literal
-		if len(re.Sub) > 0 && re.Sub[0].Op == syntax.OpLiteral {
-			lit := re.Sub[0]
-			m.literal = make([]byte, len(lit.Rune))
-			for i, r := range lit.Rune {
-				if r > 255 {
-					return branchMatcher{} // Non-ASCII
-				}
-				m.literal[i] = byte(r)
-			}
-		}
-	}
-
-	return m
+// IsExact reports whether Search and IsMatch return exactly the match of
+// \A(?:alternation). NewBranchDispatcher never returns an inexact dispatcher,
+// so this is always true; it exists so that callers can assert the invariant.
+func (d *BranchDispatcher) IsExact() bool {
+	return d != nil
 }
 
 // IsMatch returns true if the haystack matches the pattern.
 // Only checks at position 0 (for anchored patterns).
 func (d *BranchDispatcher) IsMatch(haystack []byte) bool {
-	if len(haystack) == 0 {
-		return d.canMatchEmpty
-	}
-
-	// O(1) dispatch based on first byte
-	branchIdx := d.dispatch[haystack[0]]
-	if branchIdx < 0 {
-		return false
-	}
-
-	// Try the selected branch with optimized matcher
-	m := &d.branchMatchers[branchIdx]
-
-	if len(m.literal) > 0 {
-		// Literal match
-		if len(haystack) < len(m.literal) {
-			return false
-		}
-		for i, b := range m.literal {
-			if haystack[i] != b {
-				return false
-			}
-		}
-		return true
-	}
-
-	if m.hasCharClass {
-		// Char class match
-		count := 0
-		for _, b := range haystack {
-			if !m.charClass[b] {
-				break
-			}
-			count++
-		}
-		return count >= m.minMatch
-	}
-
-	// Fallback: we know first byte matched, assume true for simple cases
-	// This is conservative - may return true for partial matches
-	return true
+	_, _, found := d.Search(haystack)
+	return found
 }
 
-// Search finds the first match starting at position 0.
+// Search finds the match starting at position 0.
 // Returns (start, end, found).
 func (d *BranchDispatcher) Search(haystack []byte) (int, int, bool) {
 	if len(haystack) == 0 {
-		if d.canMatchEmpty {
-			return 0, 0, true
-		}
+		// No branch can match the empty string.
 		return -1, -1, false
 	}
 
@@ -248,71 +342,37 @@ func (d *BranchDispatcher) Search(haystack []byte) (int, int, bool) {
 		return -1, -1, false
 	}
 
-	// Try the selected branch with optimized matcher
-	m := &d.branchMatchers[branchIdx]
-
-	if len(m.literal) > 0 {
-		// Literal match
-		if len(haystack) < len(m.literal) {
-			return -1, -1, false
-		}
-		for i, b := range m.literal {
-			if haystack[i] != b {
-				return -1, -1, false
-			}
-		}
-		return 0, len(m.literal), true
-	}
-
-	if m.hasCharClass {
-		// Char class match - greedy
-		count := 0
-		for _, b := range haystack {
-			if !m.charClass[b] {
-				break
-			}
-			count++
-		}
-		if count >= m.minMatch {
-			return 0, count, true
-		}
+	end, ok := d.branchMatchers[branchIdx].match(haystack)
+	if !ok {
 		return -1, -1, false
 	}
-
-	// Fallback: return position 0 with length 1 (conservative)
-	return 0, 1, true
+	return 0, end, true
 }
 
-// IsBranchDispatchPattern checks if pattern is suitable for branch dispatch.
-// Pattern must be start-anchored alternation with distinct first bytes per branch.
+// IsBranchDispatchPattern checks if pattern is suitable for branch dispatch:
+// the whole pattern must be the text-start anchor followed by exactly one
+// (optionally captured) alternation for which NewBranchDispatcher succeeds,
+// i.e. \A(?:b1|b2|...) with nothing before, between or after.
+//
+// (?m)^ is not accepted: it can also match after a newline, whereas the
+// dispatcher only looks at offset 0.
 func IsBranchDispatchPattern(re *syntax.Regexp) bool {
-	if re == nil {
-		return false
-	}
+	alt := branchDispatchAlternation(re)
+	return alt != nil && NewBranchDispatcher(alt) != nil
+}
 
-	// Must be concatenation starting with ^ anchor
-	if re.Op != syntax.OpConcat || len(re.Sub) < 2 {
-		return false
+// branchDispatchAlternation returns the alternation part of \A(alternation), or nil
+// if re does not have exactly this shape.
+func branchDispatchAlternation(re *syntax.Regexp) *syntax.Regexp {
+	if re == nil || re.Op != syntax.OpConcat || len(re.Sub) != 2 {
+		return nil
 	}
-
-	// First element must be start anchor
-	if re.Sub[0].Op != syntax.OpBeginLine && re.Sub[0].Op != syntax.OpBeginText {
-		return false
+	if re.Sub[0].Op != syntax.OpBeginText {
+		return nil
 	}
-
-	// Rest must be suitable for branch dispatch
-	// Find the alternation (may be wrapped in capture)
-	for _, sub := range re.Sub[1:] {
-		inner := sub
-		if sub.Op == syntax.OpCapture && len(sub.Sub) == 1 {
-			inner = sub.Sub[0]
-		}
-		if inner.Op == syntax.OpAlternate {
-			// Try to build dispatcher - if it succeeds, pattern is suitable
-			dispatcher := NewBranchDispatcher(sub)
-			return dispatcher != nil
-		}
+	alt := re.Sub[1]
+	if inner := unwrapCaptures(alt); inner == nil || inner.Op != syntax.OpAlternate {
+		return nil
 	}
-
-	return false
+	return alt
 }
